@@ -29,6 +29,7 @@
 (6) Round g: :e with an empty or self-referring argument (`e`, `e +1`, `e %`, `e #`, `e! %`; `e <own name>` was there) in every
     history: without `!` on a buffer whose text differs from its file it must be refused with the text kept, in a saved state it
     must go through (a re-read); the model (DirtyDefs.ec_edit_noarg / ec_edit_own) answers the same question (GE / GO).
+    A write to a pipe (`w !cmd`) in histories and on the unnamed buffer: names, flags and ghost disks stay (fix 268c549).
 (7) Round h: sessions that start WITHOUT a file name (gen_noname): the unnamed buffer -- never cleared by lbuf_saved(lb, 1), so
     useq_last = 0 -- is modified, gets its name from the first write with a path (`w name`, `1w name`, `1,2w name`), is written
     in part to its own path and undone all the way down (and further), then q / e / b; ghost disk of the unnamed buffer = empty,
@@ -246,7 +247,9 @@ def gen_history(rng, ncmd):
     def eself():
         # :e with an empty or self-referring argument: `e` / `e +1` re-read the file over the buffer (refused without ! on a buffer
         # that differs from its file), `e %` only "switches" to the buffer itself, `e #` goes to the alternate buffer
-        t = rng.choice(['e', 'e', 'e', 'e +1', 'e %', 'e %', 'e #', 'e! %'])
+        t = rng.choice(['e', 'e', 'e', 'e +1', 'e %', 'e %', 'e #', 'e! %', 'w !cat >/dev/null', '1w !cat >/dev/null'])
+        if t[-1] == 'l':
+            return ('wpipe', t, None)
         return ('e', t, None) if t == 'e #' else ('eforce', t, None) if '!' in t else ('eself', t, None)
 
     cmds = []      # (kind, text, info)
@@ -340,6 +343,9 @@ def gen_noname(rng, aimed=True):
     n1 = rng.choice([1, 1, 2, 3])
     for _ in range(n1):
         cmds.append(app())
+    if rng.chance(1, 3):
+        # the text of the unnamed buffer goes to a pipe: it is in no file, the buffer keeps no name and stays modified
+        cmds += [('wpipe', rng.choice(['w !cat >/dev/null', '1w !cat >/dev/null', 'w! !cat >/dev/null']), None), ask()]
     if rng.chance(1, 4):
         cmds += [('u', 'u', None), ask(), ('r', 'redo', None)]
     cmds.append(('wname', rng.choice(['w %s', 'w %s', '1w %s', '1,2w %s']) % NEWNAME, NEWNAME))
@@ -573,8 +579,9 @@ def build_script(files, cmds, every=False, noname=False):
         if every or writes_files((kind, text)):
             for j, n in enumerate(names):
                 if noname:
-                    # `w !cmd` on a buffer WITHOUT a name makes "!cmd" its name (ec_write adopts any "path"): the snapshot must not
-                    # touch the buffer.  rx = pipe a register through a command: no buffer, no guard involved
+                    # the snapshot must not depend on what ec_write does to a buffer WITHOUT a name (before fix 268c549 `w !cmd` made
+                    # "!cmd" its name: the observation must stay the same on such a tree, so that the violation is reported as what it
+                    # is).  rx = pipe a register through a command: no buffer, no guard involved
                     s.append('rx z cp %s snap_%d_%d 2>/dev/null' % (n, k, j))
                 else:
                     s.append('%%w !cp %s snap_%d_%d 2>/dev/null' % (n, k, j))          # %: does not depend on the current line
@@ -659,13 +666,6 @@ def oracle_history(files, cmds, obs, exited_at, snaps, fault=None, final=None, n
         saved_state_before = {p: (state.get(p) == 0 and not dirty_before[p] and content.get(p, b'') is not None) for p in text}
         gone = exited_at == k
         sv_here = fault['status'].get(k, {}) if fault else {}
-        if prev_cur == '' and PIPE_WRITE_RE.match(ctext_full) and '|' not in ctext_full.split('!', 1)[0]:
-            # finding candidate KF-UNNAMED-PIPE-WRITE (fixes/C02-unnamed-pipe-write.patch): `w !cmd` / `wq !cmd` / `x !cmd` on the
-            # buffer WITHOUT a name makes "!cmd" the buffer's name and marks it saved although no file holds the text.  One root
-            # cause, found on the unchanged tree; the history is not judged past this point (counted)
-            if notes is not None:
-                notes['unnamed_pipe_write'] = k
-            return None
         wq = parse_write(ctext_full) if kind == 'q' else None
         if kind == 'q' and prev_cur == '' and wq is not None:
             # the unnamed buffer: wq / x without a path cannot write ("write failed": no exit is demanded, none forbidden beyond the
@@ -720,6 +720,15 @@ def oracle_history(files, cmds, obs, exited_at, snaps, fault=None, final=None, n
             return (k, 'no current buffer in the listing', '%', lst)
         cur = curl[0]
         listed = {p for (_, _, p, _) in lst}
+        prevl0 = obs[k - 1]['listing']
+        # a write of the buffer to a PIPE (w !cmd, b,ew !cmd) is not a write to a file: no buffer changes its name, its flag or its place
+        # (fix 268c549: it used to give the unnamed buffer the name "!cmd" and mark it saved)
+        if kind == 'wpipe' and PIPE_WRITE_RE.match(ctext_full):
+            was = [(p, f) for (_, _, p, f) in prevl0]
+            now_ = [(p, f) for (_, _, p, f) in lst]
+            if was != now_:
+                return (k, 'a write to a pipe (%r) changed the buffer list: the %s buffer is now listed as %r' % (ctext, 'unnamed' if prev_cur == '' else 'current', now_[0] if now_ else None),
+                        'names and modified flags as before: %r' % (was,), repr(now_))
         # the unnamed buffer takes the path of the first write that names one
         wr = parse_write(ctext_full) if kind in ('w', 'wpart', 'wother', 'wname', 'q') else None
         # (after wq <path> / x <path> that was refused because of ANOTHER buffer, that other buffer is the current one now)
@@ -932,8 +941,6 @@ def run_history(exe, model_q, files, cmds, timeout=30, nbufs=16, shim=None, sche
         if kind not in ('q', 'e', 'b', 'eself') or k - 1 >= len(obs):
             continue
         if notes.get('evicted_modified') and k >= notes['evicted_modified']:
-            break
-        if notes.get('unnamed_pipe_write') and k >= notes['unnamed_pipe_write']:
             break
         flags = [('1' if f == '*' else '0') for (_, _, _, f) in obs[k - 1]['listing']]
         paths = [p for (_, _, p, _) in obs[k - 1]['listing']]
@@ -1224,8 +1231,6 @@ def run(ctx):
         if r['refusals']:
             nref += 1
             res.nontriv(repr((sorted(files.items()), cmds)))
-        if r.get('notes', {}).get('unnamed_pipe_write'):
-            res.count('histories not judged past a `w !cmd` on the buffer without a name (finding candidate KF-UNNAMED-PIPE-WRITE, fixes/C02-unnamed-pipe-write.patch)')
         if r.get('notes', {}).get('evicted_modified'):
             res.count('histories not judged past the point where a full table recycled a modified buffer (outside the quantifier, C20 row 17)')
         if len(files) >= NB and r.get('maxbufs', 0) != NB and r['status'] == 'ok' and not nn:
